@@ -443,6 +443,13 @@ def run(ctx):
             ok &= len(rets) == 1 and isinstance(rets[0].value, ast.Name)
     ctx.check(ok, "R5.7", "typedlist._convert:element", why, conv, "every element is self.__type__(f) unless already an instance of it",
               key="R5.7:typedlist._convert:element-passthrough")
+    cparam = func_params(conv)[1] if len(func_params(conv)) > 1 else "values"
+    for rt in [r for r in walk_no_nested(conv) if isinstance(r, ast.Return) and r.value is not None]:
+        v = rt.value
+        passthrough = (isinstance(v, ast.Name) and v.id == cparam) or (isinstance(v, ast.Call) and call_name(v) in ("list", "tuple", "copy.copy") and len(v.args) == 1 and norm(v.args[0]) == cparam) \
+            or (isinstance(v, ast.Subscript) and norm(v.value) == cparam)
+        ctx.check(not passthrough, "R5.7", f"typedlist._convert:return {norm(v)[:30]}", f"`return {norm(v)}` hands the input back without looking at its elements: elements of another (e.g. base) "
+                  "type stay unconverted in the typed list", rt, "every return is built by the element-wise conversion", key="R5.7:typedlist._convert:input-returned")
     tinit = ctx.anchor_func("flow.record.fieldtypes.typedlist.__init__")
     ctx.check(any(norm(c.func) == "self._convert" for c in calls_in(tinit)), "R5.7", "typedlist.__init__:converts",
               "the constructor does not convert its elements", tinit, "constructor calls self._convert(values)")
